@@ -283,6 +283,22 @@ def run(ctx, idx):
     c = K.cfg_of(idx, cli)
     tries = [n for n in own_nodes(cli.node) if isinstance(n, ast.Try)]
     con = "%s::handler" % cli.key
+    # the work may sit in a plain function that RETURNS the exit status, the click command being a thin wrapper: read on the source
+    # as written (the normaliser inlines such a helper into the command)
+    for f_ in idx.funcs:
+        if f_.module is not cli.module or f_ is cli:
+            continue
+        n0_ = getattr(f_, "node_orig", None) or f_.node
+        for t_ in [x for x in ast.walk(n0_) if isinstance(x, ast.Try)]:
+            body_src = " ".join(K.src(b_) for b_ in t_.body)
+            hs_ = [h_ for h_ in t_.handlers if h_.type is not None and K.src(h_.type).split(".")[-1] == "MPilotError"]
+            if "from_source" in body_src and ".run(" in body_src and hs_ and status_reaches_exit(idx, f_, hs_[0]):
+                h_ = hs_[0]
+                hsrc = " ".join(K.src(b_) for b_ in h_.body)
+                wrote = ("stderr" in hsrc or "err=True" in hsrc) and ("text_type(%s)" % (h_.name or "ex") in hsrc or "str(%s)" % (h_.name or "ex") in hsrc)
+                ctx.ob("C13.e", con, K.rel(cli), h_.lineno, wrote, "except MPilotError in %s: message to stderr, a non-zero status returned, and every caller hands a non-zero status to sys.exit" % f_.name if wrote else
+                       "the error text six.text_type(ex) is not written to stderr in the handler of %s" % f_.name)
+                return
     fs_calls = [n for n in own_nodes(cli.node) if isinstance(n, ast.Call) and isinstance(n.func, ast.Attribute) and n.func.attr == "from_source"]
     run_calls = [n for n in own_nodes(cli.node) if isinstance(n, ast.Call) and isinstance(n.func, ast.Attribute) and n.func.attr == "run"]
     ok = False
@@ -308,6 +324,10 @@ def run(ctx, idx):
                          and any(k.arg == "err" and isinstance(k.value, ast.Constant) and k.value.value is True for k in n.ast.keywords)
                          and not any(k.arg == "file" for k in n.ast.keywords)
                          and ("text_type(%s)" % (h.name or "ex") in K.src(n.ast) or "str(%s)" % (h.name or "ex") in K.src(n.ast)))
+        if not exits and status_reaches_exit(idx, cli, h):
+            ok = bool(writes) and all(c.must_pass_through(hn[0], r_, set(writes)) for r_ in c.find("return") if any(r_.ast is x for b in h.body for x in ast.walk(b)))
+            why = "except MPilotError: message to stderr, a non-zero status returned, and every caller hands a non-zero status to sys.exit" if ok else "the error text six.text_type(ex) is not written to stderr on every path to the return of the status"
+            continue
         if not exits:
             why = "the handler never calls sys.exit"
         elif c.exit in c.reachable(hn[0]):
@@ -320,6 +340,69 @@ def run(ctx, idx):
             ok = True
             why = "except MPilotError: message to stderr, sys.exit(non-zero) on every path"
     ctx.ob("C13.e", con, K.rel(cli), cli.node.lineno, ok, why)
+
+
+def status_reaches_exit(idx, fn, handler):
+    """The handler leaves by `return <non-zero constant>` on every path, and every call of `fn` in its module hands a non-zero
+    status to the interpreter: `sys.exit(fn(...))`, or `s = fn(...)` followed in the same block by `sys.exit(s)` - unconditionally
+    or under `if s:` / `if s != 0:`.  (click discards what a command function returns: `return fn(...)` exits with status 0.)"""
+    last = handler.body[-1] if handler.body else None
+    rets = [x for b in handler.body for x in ast.walk(b) if isinstance(x, ast.Return)]
+    if not rets or not isinstance(last, ast.Return):
+        return False
+    for r in rets:
+        v = r.value
+        if isinstance(v, ast.UnaryOp) and isinstance(v.op, ast.USub):
+            v = v.operand
+        if not (isinstance(v, ast.Constant) and isinstance(v.value, int) and v.value != 0):
+            return False
+    calls = []
+    for f in idx.funcs:  # on the source as written (a helper the normaliser inlines is no longer called in the normalised caller)
+        if f.module is not fn.module or f is fn:
+            continue
+        node0 = getattr(f, "node_orig", None) or f.node
+        for n in ast.walk(node0):
+            if isinstance(n, ast.Call) and isinstance(n.func, ast.Name) and n.func.id == fn.name:
+                calls.append((f, n))
+    if not calls:
+        return False
+    for f, call in calls:
+        node0 = getattr(f, "node_orig", None) or f.node
+        par = {}
+        for x in ast.walk(node0):
+            for ch in ast.iter_child_nodes(x):
+                par[id(ch)] = x
+        up = par.get(id(call))
+        if isinstance(up, ast.Call) and K.src(up.func) in ("sys.exit", "exit", "raise SystemExit") and call in up.args:
+            continue
+        if not (isinstance(up, ast.Assign) and len(up.targets) == 1 and isinstance(up.targets[0], ast.Name)):
+            return False
+        s_ = up.targets[0].id
+        blk = None
+        for x in ast.walk(node0):
+            for fld in ("body", "orelse", "finalbody"):
+                b = getattr(x, fld, None)
+                if isinstance(b, list) and up in b:
+                    blk = b
+        if blk is None:
+            return False
+        ok = False
+        for st in blk[blk.index(up) + 1:]:
+            def exits_with(stm):
+                return isinstance(stm, ast.Expr) and isinstance(stm.value, ast.Call) and K.src(stm.value.func) in ("sys.exit", "exit") and stm.value.args and K.src(stm.value.args[0]) == s_
+            if exits_with(st):
+                ok = True
+                break
+            if isinstance(st, ast.If) and any(exits_with(b_) for b_ in st.body):
+                t = st.test
+                if (isinstance(t, ast.Name) and t.id == s_) or (isinstance(t, ast.Compare) and len(t.ops) == 1 and isinstance(t.ops[0], ast.NotEq) and K.src(t.left) == s_ and isinstance(t.comparators[0], ast.Constant) and t.comparators[0].value == 0):
+                    ok = True
+                    break
+            if any(isinstance(x, ast.Name) and x.id == s_ and isinstance(x.ctx, ast.Store) for x in ast.walk(st)) or isinstance(st, ast.Return):
+                break
+        if not ok:
+            return False
+    return True
 
 
 BASE_EXC_ATTRS = {"args", "with_traceback", "__traceback__", "__cause__", "__context__", "__class__", "__doc__", "__dict__", "__module__", "__suppress_context__", "__notes__", "add_note"}
